@@ -110,7 +110,7 @@ void cv_seam_cells(CellVec *c, int res, int nPerEdge) {
         double a[3] = {cos(g[i].lat) * cos(g[i].lng), cos(g[i].lat) * sin(g[i].lng), sin(g[i].lat)};
         double b[3] = {cos(g[j].lat) * cos(g[j].lng), cos(g[j].lat) * sin(g[j].lng), sin(g[j].lat)};
         for (int s = 0; s < nPerEdge; s++) {
-            double t = (s + vt_rand01()) / nPerEdge;
+            double t = (s + (nPerEdge > 200 ? 0.5 : vt_rand01())) / nPerEdge;
             double v[3]; double nn = 0;
             for (int q = 0; q < 3; q++) { v[q] = (1 - t) * a[q] + t * b[q]; nn += v[q] * v[q]; }
             nn = sqrt(nn);
